@@ -136,25 +136,15 @@ theorem ipc_data_after_eos (pr : IpcParams P O) (ctx : P) (b : Nat) (bs : Bytes)
     ipcFeed pr ⟨.finished, ctx⟩ (b :: bs) = (⟨.failed .eosData, ctx⟩, []) := by
   rw [ipc_refinement]; simp [runBytes, ipcStep, ipcStepNoBody, ipc_failed_absorb]
 
-/-- **Where the push decoder and the one-shot reader part ways (partial: one-shot clause).**
-`oneShot_eq_bytewise` makes the push decoder fed the whole input equal to itself fed byte by
-byte; the *pull* reader `StreamReader`, however, dispatches a message as soon as its metadata
-and body are read, while `StreamDecoder::decode` dispatches only inside
-`while !buffer.is_empty()`.  For a message whose `bodyLength` is 0 the body is complete with
-the last metadata byte, yet the model (as the code) stays in `Body` without output, and
-`finish()` then reports a truncated stream: a stream that ends — legally, without EOS marker —
-right after such a message loses it.  (Observed on the real code; reported, see
-`finding:ipc-pending-empty-body`.)  The message is dispatched by whatever byte comes next. -/
-theorem ipc_empty_body_pending_partial (pr : IpcParams P O) (ctx : P) (md : Bytes)
+/-- **A message with an empty body is dispatched as soon as its metadata is complete.** The
+decoder does not wait for a further byte (`while !buffer.is_empty() || pending empty body`):
+a stream that ends — legally, without EOS marker — right after a schema or a zero-row batch
+delivers it, as the one-shot reader does, and `finish()` then succeeds. -/
+theorem ipc_empty_body_dispatched (pr : IpcParams P O) (ctx : P) (md : Bytes)
     (hmd : 0 < md.length) (hp : pr.parseMeta md = some 0) :
-    ipcFeed pr ⟨.message md.length [], ctx⟩ md = (⟨.body md 0 [], ctx⟩, []) ∧
-    ipcFinish (⟨.body md 0 [], ctx⟩ : IpcState P) = .truncated ∧
-    (∀ b, (ipcStep pr ⟨.body md 0 [], ctx⟩ b).2 =
-      (bodyDone pr ctx md []).2 ++ (ipcStepNoBody pr (bodyDone pr ctx md []).1 b).2) := by
-  refine ⟨?_, rfl, ?_⟩
-  · rw [ipc_refinement, ipc_run_message pr ctx md.length md [] (by simpa using hmd) (by simp)]
-    simp [messageDone, hp]
-  · intro b; simp [ipcStep]
+    ipcFeed pr ⟨.message md.length [], ctx⟩ md = bodyDone pr ctx md [] := by
+  rw [ipc_refinement, ipc_run_message pr ctx md.length md [] (by simpa using hmd) (by simp)]
+  simp [messageDone, hp]
 
 example : ipcMarker = [255, 255, 255, 255] := by decide
 
